@@ -1,183 +1,11 @@
-(** C16 -- a call that raises leaves every object unchanged, for the calls that satisfy
-    [atomic_ok].  The only state hypothesis is the dict-key discipline of the label tables
-    ([tabs_keyed]), which holds in EVERY reachable state, guards or not. *)
+(** C16 -- a call that raises leaves every object unchanged: unconditionally, in every state
+    (the code now tests before it mutates).  Also: objects without an interpretation (Graph,
+    HRG) never get domains or factors ([plain_ok], an unconditional invariant used by the copy
+    theorems). *)
 From Coq Require Import List Arith Bool Lia.
 Import ListNotations.
 Require Import Fggs.Model.GraphAPI Fggs.Proofs.GraphAPI_assoc Fggs.Proofs.GraphAPI_wf
         Fggs.Proofs.GraphAPI_graph Fggs.Proofs.GraphAPI_hrg Fggs.Proofs.GraphAPI_inv.
-
-Definition tabs_keyed_os (os : list obj) : Prop := forall k o, nth_error os k = Some o -> tab_ok (tab_of o).
-Definition tabs_keyed (s : state) : Prop := tabs_keyed_os (objs s).
-
-(** * [tabs_keyed] is an unconditional invariant *)
-Lemma tk_set_nth : forall os h o, tabs_keyed_os os -> tab_ok (tab_of o) -> tabs_keyed_os (set_nth os h o).
-Proof.
-  intros os h o T H k o' Hk. destruct (Nat.eq_dec k h) as [->|N].
-  - destruct (Nat.lt_ge_cases h (length os)) as [L|L].
-    + rewrite nth_error_set_nth_same in Hk by assumption. inversion Hk; subst. assumption.
-    + assert (X : nth_error (set_nth os h o) h = None).
-      { apply nth_error_None. rewrite length_set_nth. assumption. }
-      congruence.
-  - rewrite nth_error_set_nth_other in Hk by assumption. eapply T; eauto.
-Qed.
-
-Lemma tk_app : forall os news, tabs_keyed_os os -> (forall o, In o news -> tab_ok (tab_of o)) -> tabs_keyed_os (os ++ news).
-Proof.
-  intros os news T H k o Hk. destruct (Nat.lt_ge_cases k (length os)) as [L|L].
-  - rewrite nth_error_app1 in Hk by assumption. eapply T; eauto.
-  - rewrite nth_error_app2 in Hk by assumption. apply H. eapply nth_error_In; eauto.
-Qed.
-
-Lemma g_add_edge_tab : forall g e, tab_ok (g_tab g) -> tab_ok (g_tab (fst (g_add_edge g e))).
-Proof.
-  intros g e T. pose proof (add_missing_grows (e_nodes e) g) as GR.
-  destruct (g_add_edge_cases g e T) as [[E _]|[[E _]|(t' & E & _ & _ & L)]]; rewrite E; cbn [fst].
-  - assumption.
-  - apply (gr_tab _ _ GR). assumption.
-  - cbn. apply (add_edge_label_spec _ _ _ _ L (gr_tab _ _ GR T)).
-Qed.
-
-Lemma fold_err_pres : forall {A B} (P : A -> Prop) (f : A -> B -> A * result),
-    (forall a x, P a -> P (fst (f a x))) -> forall l a, P a -> P (fst (fold_err f l a)).
-Proof.
-  intros A B P f H. induction l as [|x l IH]; intros a Pa; cbn; [assumption|].
-  pose proof (H a x Pa) as P1. destruct (f a x) as [a' [| |k]]; cbn in *; auto.
-Qed.
-
-Lemma g_copy_tab : forall g c, g_copy g = inl c -> tab_ok (g_tab c).
-Proof.
-  intros g c E. unfold g_copy in E. destruct (g_fg g).
-  - pose proof (fold_err_pres (fun g => tab_ok (g_tab g)) g_add_node
-                              (fun a x T => gr_tab _ _ (add_node_grows a x) T)
-                              (map snd (g_nodes g)) (empty_graph true) tab_ok_empty) as P1.
-    destruct (fold_err g_add_node (map snd (g_nodes g)) (empty_graph true)) as [c1 r1]. cbn in P1.
-    pose proof (fold_err_pres (fun g => tab_ok (g_tab g)) g_add_edge g_add_edge_tab (map snd (g_edges g)) c1 P1) as P2.
-    destruct (fold_err g_add_edge (map snd (g_edges g)) c1) as [c2 r2]. cbn in P2.
-    destruct r1 as [| |k1]; [| |discriminate]; (destruct r2 as [| |k2]; [| |discriminate]);
-      inversion E; subst; cbn; destruct P2; split; assumption.
-  - inversion E; subst. apply tab_ok_empty.
-Qed.
-
-Lemma h_set_start_tab : forall h sp, tab_ok (h_tab h) -> tab_ok (h_tab (fst (h_set_start h sp))).
-Proof.
-  intros h sp T. unfold h_set_start. destruct sp as [|l|n]; cbn; [assumption| |].
-  all: match goal with |- context [if el_term ?l then _ else _] => set (lab := l) end.
-  all: destruct (el_term lab); [assumption|].
-  all: destruct (t_add_edge_label (h_tab h) lab) as [t1 r1] eqn:E1.
-  all: destruct (add_edge_label_spec _ _ _ _ E1 T) as (A & _).
-  all: destruct r1; cbn; assumption.
-Qed.
-
-Lemma h_add_rule_tab : forall h r g, tab_ok (h_tab h) -> tab_ok (h_tab (fst (h_add_rule h r g))).
-Proof.
-  intros h r g T. unfold h_add_rule.
-  destruct (t_add_edge_label (h_tab h) (r_lhs r)) as [t1 r1] eqn:E1.
-  destruct (add_edge_label_spec _ _ _ _ E1 T) as (A1 & _).
-  destruct (fold_nl_ok (g_nodes g) t1 A1) as [A2 _].
-  set (t2 := fold_left (fun t kn => t_add_node_label t (n_label (snd kn))) (g_nodes g) t1) in *.
-  destruct (fold_err (fun t ke => t_add_edge_label t (e_label (snd ke))) (g_edges g) t2) as [t3 r3] eqn:E3.
-  destruct (fold_el_spec _ _ _ _ E3 A2) as (A3 & _).
-  destruct r1 as [| |k1]; [| |cbn; assumption]; (destruct r3; cbn; assumption).
-Qed.
-
-Lemma on_graph_tk : forall s c h f,
-    tabs_keyed s -> (forall g, tab_ok (g_tab g) -> tab_ok (g_tab (fst (f g)))) -> tabs_keyed (fst (on_graph s c h f)).
-Proof.
-  intros s c h f T H. unfold on_graph. destruct (get_graph (objs s) h) as [g|] eqn:G; [|exact T].
-  unfold get_graph in G. destruct (nth_error (objs s) h) as [[g0|]|] eqn:N; try discriminate. inversion G; subst.
-  pose proof (H g (T _ _ N)) as X. destruct (f g) as [g' r]. cbn in *.
-  unfold tabs_keyed. cbn. apply tk_set_nth; assumption.
-Qed.
-
-Lemma on_hrg_tk : forall s h f,
-    tabs_keyed s -> (forall x, tab_ok (h_tab x) -> tab_ok (h_tab (fst (f x)))) -> tabs_keyed (fst (on_hrg s h f)).
-Proof.
-  intros s h f T H. unfold on_hrg. destruct (get_hrg (objs s) h) as [x|] eqn:G; [|exact T].
-  unfold get_hrg in G. destruct (nth_error (objs s) h) as [[|x0]|] eqn:N; try discriminate. inversion G; subst.
-  pose proof (H x (T _ _ N)) as X. destruct (f x) as [x' r]. cbn in *.
-  unfold tabs_keyed. cbn. apply tk_set_nth; assumption.
-Qed.
-
-Lemma on_tab_tk : forall s b h f,
-    tabs_keyed s -> (forall t, tab_ok t -> tab_ok (fst (f t))) -> tabs_keyed (fst (on_tab s b h f)).
-Proof.
-  intros s b h f T H. unfold on_tab. destruct (nth_error (objs s) h) as [o|] eqn:N; [|exact T].
-  destruct (b && negb (has_interp o)); [exact T|].
-  pose proof (H _ (T _ _ N)) as X. destruct (f (tab_of o)) as [t r]. cbn in *.
-  unfold tabs_keyed. cbn. apply tk_set_nth; [assumption|]. destruct o; cbn; assumption.
-Qed.
-
-Lemma mk_edge_tab : forall l ns i g, tab_ok (g_tab g) -> tab_ok (g_tab (fst (mk_edge_and_add l ns i g))).
-Proof.
-  intros l ns i g T. unfold mk_edge_and_add. destruct i as [i|]; [|assumption].
-  destruct (lnat_eq_dec (el_ty l) (map n_label ns)); [apply g_add_edge_tab; assumption | assumption].
-Qed.
-
-Lemma h_new_tab : forall b sp h r, h_new b sp = (Some h, r) -> tab_ok (h_tab h).
-Proof.
-  intros b sp h r E. unfold h_new in E.
-  pose proof (h_set_start_tab (mkH b [] (EL 0 [] false) empty_tab) sp tab_ok_empty) as X.
-  destruct (h_set_start (mkH b [] (EL 0 [] false) empty_tab) sp) as [h' [| |k]]; inversion E; subst. assumption.
-Qed.
-
-Theorem step_tabs_keyed : forall s o, tabs_keyed s -> tabs_keyed (fst (step s o)).
-Proof.
-  intros s o T. destruct o; cbn [step].
-  - apply tk_app; [assumption|]. intros o [<-|[]]. apply tab_ok_empty.
-  - apply tk_app; [assumption|]. intros o [<-|[]]. apply tab_ok_empty.
-  - destruct (h_new false s0) as [[x|] r] eqn:E; [|exact T].
-    apply tk_app; [assumption|]. intros o [<-|[]]. cbn. eapply h_new_tab; eauto.
-  - destruct (h_new true s0) as [[x|] r] eqn:E; [|exact T].
-    apply tk_app; [assumption|]. intros o [<-|[]]. cbn. eapply h_new_tab; eauto.
-  - destruct (resolve (ctr s) [n]) as [ns c]. destruct ns as [|x [|y ns]]; try exact T.
-    apply on_graph_tk; [assumption|]. intros g Tg. apply (gr_tab _ _ (add_node_grows g x) Tg).
-  - destruct (resolve_id (ctr s) i) as [[i'|] c]; [|exact T].
-    apply on_graph_tk; [assumption|]. intros g Tg. apply (gr_tab _ _ (add_node_grows g _) Tg).
-  - apply on_graph_tk; [assumption|]. intros g Tg. unfold g_remove_node.
-    destruct (negb _); cbn; [assumption|]. destruct (existsb _ _); cbn; [assumption|].
-    destruct (inb _ _ _); cbn; assumption.
-  - destruct (resolve (ctr s) ns) as [ns' c]. destruct (resolve_id c i) as [i' c'].
-    apply on_graph_tk; [assumption|]. intros g Tg. apply mk_edge_tab. assumption.
-  - destruct (resolve (ctr s) ns) as [ns' c]. destruct (resolve_id c i) as [i' c'].
-    destruct ((t && nt) || (negb t && negb nt)); [exact T|].
-    apply on_graph_tk; [assumption|]. intros g Tg. apply mk_edge_tab. assumption.
-  - apply on_graph_tk; [assumption|]. intros g Tg. unfold g_remove_edge. destruct (negb _); cbn; assumption.
-  - destruct (resolve (ctr s) ns) as [ns' c].
-    apply on_graph_tk; [assumption|]. intros g Tg. cbn. apply (gr_tab _ _ (add_missing_grows ns' g) Tg).
-  - destruct (nth_error (objs s) h) as [[g|x]|] eqn:N; [| |exact T].
-    + destruct (g_copy g) as [c|] eqn:C; [|exact T].
-      apply tk_app; [assumption|]. intros o [<-|[]]. cbn. eapply g_copy_tab; eauto.
-    + destruct (h_copy (objs s) x) as [[c news]|] eqn:C; [|exact T].
-      unfold h_copy in C.
-      destruct (h_new (h_fgg x) (SLabel (h_start x))) as [[c0|] r0]; [|destruct r0; discriminate].
-      destruct (copy_groups (objs s) (S (length (objs s))) (h_rules x)) as [[gs news0]|] eqn:E1; [|discriminate].
-      inversion C; subst. destruct (copy_groups_spec _ _ _ _ _ E1) as (_ & _ & D).
-      apply tk_app; [assumption|]. intros o [<-|Ho].
-      * cbn. destruct (T _ _ N) as [a b]. split; assumption.
-      * destruct (D _ Ho) as (k & rs & _ & (r & g & c1 & -> & _ & _ & Hc)). cbn. eapply g_copy_tab; eauto.
-  - destruct (get_graph (objs s) g); exact T.
-  - destruct (get_graph (objs s) g) as [g0|]; [|exact T]. destruct (rule_ok l g0); [|exact T].
-    apply (on_hrg_tk s h (fun x => h_add_rule x (Rule l g) g0)); [assumption|]. intros; apply h_add_rule_tab; assumption.
-  - destruct (get_graph (objs s) g) as [g0|]; [|exact T]. destruct (rule_ok _ g0); [|exact T].
-    apply (on_hrg_tk s h (fun x => h_add_rule x (Rule (EL name (g_type g0) false) g) g0)); [assumption|].
-    intros; apply h_add_rule_tab; assumption.
-  - apply on_hrg_tk; [assumption|]. intros; apply h_set_start_tab; assumption.
-  - apply on_tab_tk; [assumption|]. intros t0 T0. cbn. apply add_node_label_ok. assumption.
-  - apply on_tab_tk; [assumption|]. intros t0 T0.
-    destruct (t_add_edge_label t0 l) as [t1 r1] eqn:E. apply (add_edge_label_spec _ _ _ _ E T0).
-  - apply on_tab_tk; [assumption|]. intros t0 T0. apply add_domain_ok. assumption.
-  - apply on_tab_tk; [assumption|]. intros t0 T0. apply add_factor_ok. assumption.
-  - apply on_tab_tk; [assumption|]. intros t0 T0. apply add_domain_ok. assumption.
-  - apply on_tab_tk; [assumption|]. intros t0 T0. apply new_finite_factor_ok. assumption.
-  - destruct (nth_error (objs s) h1), (nth_error (objs s) h2); exact T.
-Qed.
-
-Theorem reachable_tabs_keyed : forall ops, tabs_keyed (run init ops).
-Proof.
-  assert (H : forall ops s, tabs_keyed s -> tabs_keyed (run s ops)).
-  { induction ops as [|o ops IH]; intros s T; [exact T|]. unfold run in *. cbn. apply IH. apply step_tabs_keyed. assumption. }
-  intros ops. apply H. intros k o Hk. destruct k; discriminate.
-Qed.
 
 (** * atomicity *)
 Lemma on_graph_atomic : forall s c h f,
@@ -202,59 +30,75 @@ Lemma with_tab_id : forall o, with_tab o (tab_of o) = o.
 Proof. destruct o as [[? ? ? ? ?]|[? ? ? ?]]; reflexivity. Qed.
 
 Lemma on_tab_atomic : forall s b h f,
-    (forall o, nth_error (objs s) h = Some o -> (b && negb (has_interp o)) = false ->
-               is_err (snd (f (tab_of o))) = true -> fst (f (tab_of o)) = tab_of o) ->
+    (forall t, is_err (snd (f t)) = true -> fst (f t) = t) ->
     is_err (snd (on_tab s b h f)) = true -> objs (fst (on_tab s b h f)) = objs s.
 Proof.
   intros s b h f H. unfold on_tab. destruct (nth_error (objs s) h) as [o|] eqn:N; [|reflexivity].
   destruct (b && negb (has_interp o)) eqn:B; [reflexivity|].
-  specialize (H o eq_refl B). destruct (f (tab_of o)) as [t r]. cbn in *. intros E. rewrite (H E).
+  specialize (H (tab_of o)). destruct (f (tab_of o)) as [t r]. cbn in *. intros E. rewrite (H E).
   rewrite with_tab_id. apply set_nth_same. assumption.
 Qed.
 
-Lemma set_nl_id : forall t, set_nl t (t_nl t) = t.
-Proof. destruct t; reflexivity. Qed.
-Lemma hset_tab_id : forall h, hset_tab h (h_tab h) = h.
-Proof. destruct h; reflexivity. Qed.
-
-(** a registered label: registering it again changes nothing *)
-Lemma add_edge_label_registered : forall t l, registered t l -> t_add_edge_label t l = (t, ROk).
+Lemma add_edge_label_atomic : forall t l, is_err (snd (t_add_edge_label t l)) = true -> fst (t_add_edge_label t l) = t.
 Proof.
-  intros t l R. unfold t_add_edge_label. unfold registered in R. rewrite R.
-  destruct (elabel_eq_dec l l); [|congruence]. rewrite aset_id by assumption. rewrite set_el_id. reflexivity.
+  intros t l. unfold t_add_edge_label. destruct (aget Nat.eq_dec (t_el t) (el_name l)) as [l'|]; [|cbn; discriminate].
+  destruct (elabel_eq_dec l' l); cbn; [discriminate | reflexivity].
 Qed.
 
-Lemma add_factor_atomic_registered : forall t l f,
-    registered t l -> is_err (snd (t_add_factor t l f)) = true -> fst (t_add_factor t l f) = t.
+Lemma add_domain_atomic : forall t l d, is_err (snd (t_add_domain t l d)) = true -> fst (t_add_domain t l d) = t.
 Proof.
-  intros t l f R. unfold t_add_factor. destruct (negb (el_term l)); [reflexivity|].
-  rewrite (add_edge_label_registered _ _ R).
+  intros t l d. unfold t_add_domain. destruct (amem Nat.eq_dec (t_dom t) l); cbn; [reflexivity | discriminate].
+Qed.
+
+Lemma add_factor_atomic : forall t l f, is_err (snd (t_add_factor t l f)) = true -> fst (t_add_factor t l f) = t.
+Proof.
+  intros t l f. unfold t_add_factor.
+  destruct (negb (el_term l)); [reflexivity|].
+  destruct (label_conflict t l) eqn:LC; [reflexivity|].
   destruct (amem Nat.eq_dec (t_fac t) (el_name l)); [reflexivity|].
   destruct (negb (Nat.eqb (length (f_doms f)) (length (el_ty l)))); [reflexivity|].
-  destruct (negb (fac_doms_ok t (el_ty l) (f_doms f))); [reflexivity|]. cbn. discriminate.
+  destruct (negb (fac_doms_ok t (el_ty l) (f_doms f))); [reflexivity|].
+  destruct (add_edge_label_no_conflict _ _ LC) as [t' E]. rewrite E. cbn. discriminate.
+Qed.
+
+Lemma new_finite_factor_atomic : forall t n sh tag,
+    is_err (snd (t_new_finite_factor t n sh tag)) = true -> fst (t_new_finite_factor t n sh tag) = t.
+Proof.
+  intros t n sh tag. unfold t_new_finite_factor.
+  destruct (aget Nat.eq_dec (t_el t) n) as [l|]; [|reflexivity].
+  destruct (lookup_doms t (el_ty l)) as [ds|]; [|reflexivity].
+  destruct (lnat_eq_dec sh (map (@length nat) ds)); [apply add_factor_atomic | reflexivity].
 Qed.
 
 Lemma mk_edge_atomic : forall l ns i g,
-    tab_ok (g_tab g) ->
-    (label_conflict (g_tab g) l = true -> forallb (fun n => amem ident_eq_dec (g_nodes g) (n_id n)) ns = true) ->
     is_err (snd (mk_edge_and_add l ns i g)) = true -> fst (mk_edge_and_add l ns i g) = g.
 Proof.
-  intros l ns i g T GD. unfold mk_edge_and_add. destruct i as [i|]; [|reflexivity].
+  intros l ns i g. unfold mk_edge_and_add. destruct i as [i|]; [|reflexivity].
   destruct (lnat_eq_dec (el_ty l) (map n_label ns)); [|reflexivity].
-  destruct (g_add_edge_cases g (Edge l ns i) T) as [[E _]|[[E (_ & LC)]|(t' & E & _)]]; rewrite E; cbn [fst snd].
-  - reflexivity.
-  - intros _. cbn in LC. apply add_missing_id. intros n Hn. cbn in Hn.
-    specialize (GD LC). rewrite forallb_forall in GD. apply GD. assumption.
-  - discriminate.
+  destruct (g_add_edge_cases g (Edge l ns i)) as [E|(add & t' & _ & E & _)]; rewrite E; cbn; [reflexivity | discriminate].
 Qed.
 
-Theorem step_atomic : forall s o,
-    tabs_keyed s -> atomic_ok s o = true -> is_err (snd (step s o)) = true ->
-    objs (fst (step s o)) = objs s.
+Lemma set_ext_atomic : forall g ns, is_err (snd (g_set_ext g ns)) = true -> fst (g_set_ext g ns) = g.
 Proof.
-  intros s o T G. unfold atomic_ok in G.
-  apply andb_true_iff in G. destruct G as [G G3]. apply andb_true_iff in G. destruct G as [G1 G2].
-  destruct o; cbn [step].
+  intros g ns. destruct (g_set_ext_shape g ns) as [_ [[R _]|[_ E]]]; [rewrite R; discriminate | intros; assumption].
+Qed.
+
+Lemma set_start_atomic : forall x sp, is_err (snd (h_set_start x sp)) = true -> fst (h_set_start x sp) = x.
+Proof.
+  intros x sp. unfold h_set_start. destruct sp as [|l|n]; [reflexivity| |].
+  all: match goal with |- context [if el_term ?l then _ else _] => set (lab := l) end.
+  all: destruct (el_term lab); [reflexivity|].
+  all: destruct (t_add_edge_label (h_tab x) lab) as [t1 [| |k]]; cbn; try discriminate; reflexivity.
+Qed.
+
+Lemma add_rule_atomic : forall x r g, is_err (snd (h_add_rule x r g)) = true -> fst (h_add_rule x r g) = x.
+Proof.
+  intros x r g. destruct (h_add_rule_cases x r g) as [E|E]; rewrite E; [reflexivity | discriminate].
+Qed.
+
+Theorem step_atomic : forall s o, is_err (snd (step s o)) = true -> objs (fst (step s o)) = objs s.
+Proof.
+  intros s o. destruct o; cbn [step].
   - discriminate.
   - discriminate.
   - destruct (h_new false s0) as [[x|] r] eqn:E; [|reflexivity].
@@ -266,117 +110,264 @@ Proof.
   - destruct (resolve_id (ctr s) i) as [[i'|] c]; [|reflexivity].
     apply on_graph_atomic. intros g _. unfold g_add_node. destruct (amem _ _ _); cbn; [reflexivity | discriminate].
   - apply on_graph_atomic. intros g _. unfold g_remove_node.
-    destruct (negb _); cbn; [reflexivity|]. destruct (existsb _ _); cbn; [reflexivity|].
-    destruct (inb _ _ _); cbn; [reflexivity | discriminate].
-  - (* AddEdge *)
-    cbn in G1. unfold resolved in G1.
-    destruct (resolve (ctr s) ns) as [ns' c] eqn:ER. destruct (resolve_id c i) as [i' c'] eqn:EI. cbn [fst] in G1.
-    intros ERR. revert ERR. apply on_graph_atomic. intros g Hg ERR.
-    rewrite Hg in G1.
-    assert (RS : is_err (snd (on_graph s c' h (mk_edge_and_add l ns' i'))) = true).
-    { unfold on_graph. rewrite Hg. destruct (mk_edge_and_add l ns' i' g). exact ERR. }
-    rewrite RS in G1. cbn in G1.
-    apply mk_edge_atomic; [| |assumption].
-    + unfold get_graph in Hg. destruct (nth_error (objs s) h) as [[g0|]|] eqn:N; try discriminate.
-      inversion Hg; subst. apply (T _ _ N).
-    + intros LC. rewrite LC in G1. exact G1.
-  - (* NewEdge *)
-    cbn in G1. unfold resolved in G1.
-    destruct (resolve (ctr s) ns) as [ns' c] eqn:ER. destruct (resolve_id c i) as [i' c'] eqn:EI. cbn [fst] in G1.
+    destruct (aget ident_eq_dec (g_nodes g) (n_id n)); [|reflexivity].
+    destruct (node_eq_dec n0 n); [|reflexivity].
+    destruct (existsb _ _); cbn; [reflexivity|]. destruct (inb _ _ _); cbn; [reflexivity | discriminate].
+  - destruct (resolve (ctr s) ns) as [ns' c]. destruct (resolve_id c i) as [i' c'].
+    apply on_graph_atomic. intros g _. apply mk_edge_atomic.
+  - destruct (resolve (ctr s) ns) as [ns' c]. destruct (resolve_id c i) as [i' c'].
     destruct ((t && nt) || (negb t && negb nt)); [reflexivity|].
-    intros ERR. revert ERR. apply on_graph_atomic. intros g Hg ERR.
-    rewrite Hg in G1.
-    assert (RS : is_err (snd (on_graph s c' h (mk_edge_and_add (EL name (map n_label ns') t) ns' i'))) = true).
-    { unfold on_graph. rewrite Hg. destruct (mk_edge_and_add _ ns' i' g). exact ERR. }
-    rewrite RS in G1. cbn in G1.
-    apply mk_edge_atomic; [| |assumption].
-    + unfold get_graph in Hg. destruct (nth_error (objs s) h) as [[g0|]|] eqn:N; try discriminate.
-      inversion Hg; subst. apply (T _ _ N).
-    + intros LC. rewrite LC in G1. exact G1.
+    apply on_graph_atomic. intros g _. apply mk_edge_atomic.
   - apply on_graph_atomic. intros g _. unfold g_remove_edge. destruct (negb _); cbn; [reflexivity | discriminate].
-  - destruct (resolve (ctr s) ns) as [ns' c]. apply on_graph_atomic. intros g _. cbn. discriminate.
+  - destruct (resolve (ctr s) ns) as [ns' c]. apply on_graph_atomic. intros g _. apply set_ext_atomic.
   - destruct (nth_error (objs s) h) as [[g|x]|]; [| |reflexivity].
     + destruct (g_copy g); [discriminate | reflexivity].
     + destruct (h_copy (objs s) x) as [[c news]|]; [discriminate | reflexivity].
   - destruct (get_graph (objs s) g); reflexivity.
-  - (* AddRule *)
-    cbn in G2. destruct (get_graph (objs s) g) as [g0|] eqn:Hg; [|reflexivity].
-    destruct (rule_ok l g0) eqn:RO; [|reflexivity].
-    apply (on_hrg_atomic s h (fun x => h_add_rule x (Rule l g) g0)). intros x Hx ERR.
-    rewrite Hx in G2. cbn in G2.
-    destruct (h_add_rule x (Rule l g) g0) as [x' r] eqn:E. cbn in *. rewrite ERR in G2. cbn in G2.
-    destruct (tables_eq_dec (h_tab x') (h_tab x)) as [TE|]; [|discriminate].
-    unfold h_add_rule in E.
-    destruct (t_add_edge_label (h_tab x) (r_lhs (Rule l g))) as [t1 [| |k1]].
-    3:{ inversion E; subst. reflexivity. }
-    all: destruct (fold_err _ (g_edges g0) _) as [t3 [| |k3]]; inversion E; subst; cbn in *; try discriminate.
-    all: rewrite TE; apply hset_tab_id.
-  - (* NewRule *)
-    unfold rule_reg_ok in G2. destruct (get_graph (objs s) g) as [g0|] eqn:Hg; [|reflexivity].
-    destruct (rule_ok (EL name (g_type g0) false) g0) eqn:RO; [|reflexivity].
-    apply (on_hrg_atomic s h (fun x => h_add_rule x (Rule (EL name (g_type g0) false) g) g0)). intros x Hx ERR.
-    rewrite Hx in G2. cbv beta iota in G2. cbn [negb orb] in G2.
-    destruct (h_add_rule x (Rule (EL name (g_type g0) false) g) g0) as [x' r] eqn:E. cbn in *. rewrite ERR in G2. cbn in G2.
-    destruct (tables_eq_dec (h_tab x') (h_tab x)) as [TE|]; [|discriminate].
-    unfold h_add_rule in E.
-    destruct (t_add_edge_label (h_tab x) (r_lhs (Rule (EL name (g_type g0) false) g))) as [t1 [| |k1]].
-    3:{ inversion E; subst. reflexivity. }
-    all: destruct (fold_err _ (g_edges g0) _) as [t3 [| |k3]]; inversion E; subst; cbn in *; try discriminate.
-    all: rewrite TE; apply hset_tab_id.
-  - (* SetStart *)
-    apply on_hrg_atomic. intros x _. unfold h_set_start. destruct s0 as [|l|n]; [reflexivity| |].
-    all: match goal with |- context [if el_term ?l then _ else _] => set (lab := l) end.
-    all: destruct (el_term lab); [reflexivity|].
-    all: destruct (t_add_edge_label (h_tab x) lab) as [t1 [| |k]]; cbn; try discriminate; reflexivity.
+  - destruct (get_graph (objs s) g) as [g0|]; [|reflexivity]. destruct (rule_ok l g0); [|reflexivity].
+    apply (on_hrg_atomic s h (fun x => h_add_rule x (Rule l g) g0)). intros x _. apply add_rule_atomic.
+  - destruct (get_graph (objs s) g) as [g0|]; [|reflexivity]. destruct (rule_ok _ g0); [|reflexivity].
+    apply (on_hrg_atomic s h (fun x => h_add_rule x (Rule (EL name (g_type g0) false) g) g0)). intros x _. apply add_rule_atomic.
+  - apply on_hrg_atomic. intros x _. apply set_start_atomic.
   - apply on_tab_atomic. intros; discriminate.
-  - apply on_tab_atomic. intros o Ho _ ERR.
-    destruct (t_add_edge_label (tab_of o) l) as [t1 r1] eqn:E.
-    destruct (add_edge_label_spec _ _ _ _ E (T _ _ Ho)) as (_ & _ & _ & D & _). cbn in *.
-    apply D. intro; subst; discriminate.
-  - (* AddDomain *)
-    cbn in G3. apply on_tab_atomic. intros o Ho B ERR. rewrite Ho in G3. cbn in B. rewrite B in G3. cbn in G3.
-    unfold t_add_domain in *.
-    destruct (amem Nat.eq_dec (t_dom (t_add_node_label (tab_of o) l)) l) eqn:M; [|discriminate]. cbn in M.
-    rewrite M in G3. cbn in G3. cbn.
-    apply amem_true in G3. destruct G3 as [v Hv].
-    pose proof (keyed_aget Nat.eq_dec (fun l : nat => l) _ _ _ (tk_nl _ (T _ _ Ho)) Hv) as Ev. cbn in Ev. subst v.
-    unfold t_add_node_label. rewrite aset_id by assumption. apply set_nl_id.
-  - (* AddFactor *)
-    cbn [interp_reg_ok] in G3. intros ERR. revert ERR. apply on_tab_atomic. intros o Ho B ERR. rewrite Ho in G3.
-    cbn in B. rewrite B in G3.
-    assert (RS : is_err (snd (on_tab s true h (fun t => t_add_factor t l f))) = true).
-    { unfold on_tab. rewrite Ho. cbn. rewrite B. destruct (t_add_factor (tab_of o) l f). exact ERR. }
-    change (snd (step s (AddFactor h l f))) with (snd (on_tab s true h (fun t => t_add_factor t l f))) in G3.
-    rewrite RS in G3. cbn in G3.
-    destruct (el_term l) eqn:TM; cbn in G3.
-    2:{ unfold t_add_factor. rewrite TM. reflexivity. }
-    destruct (label_conflict (tab_of o) l) eqn:LC; cbn in G3.
-    { unfold t_add_factor, t_add_edge_label. rewrite TM. cbn. unfold label_conflict, elabel_eqb in LC.
-      destruct (aget Nat.eq_dec (t_el (tab_of o)) (el_name l)) as [l'|]; [|discriminate].
-      destruct (elabel_eq_dec l' l); [discriminate | reflexivity]. }
-    apply add_factor_atomic_registered; [|assumption].
-    unfold registered. unfold label_conflict, elabel_eqb in LC.
-    destruct (aget Nat.eq_dec (t_el (tab_of o)) (el_name l)) as [l'|]; [|discriminate].
-    destruct (elabel_eq_dec l' l); [congruence | discriminate].
-  - (* NewFiniteDomain *)
-    cbn in G3. apply on_tab_atomic. intros o Ho B ERR. rewrite Ho in G3. cbn in B. rewrite B in G3. cbn in G3.
-    unfold t_add_domain in *.
-    destruct (amem Nat.eq_dec (t_dom (t_add_node_label (tab_of o) l)) l) eqn:M; [|discriminate]. cbn in M.
-    rewrite M in G3. cbn in G3. cbn.
-    apply amem_true in G3. destruct G3 as [v Hv].
-    pose proof (keyed_aget Nat.eq_dec (fun l : nat => l) _ _ _ (tk_nl _ (T _ _ Ho)) Hv) as Ev. cbn in Ev. subst v.
-    unfold t_add_node_label. rewrite aset_id by assumption. apply set_nl_id.
-  - (* NewFiniteFactor *)
-    apply on_tab_atomic. intros o Ho B ERR. unfold t_new_finite_factor in *.
-    destruct (aget Nat.eq_dec (t_el (tab_of o)) name) as [l|] eqn:GL; [|reflexivity].
-    destruct (lookup_doms (tab_of o) (el_ty l)) as [ds|]; [|reflexivity].
-    destruct (lnat_eq_dec shape (map (@length nat) ds)); [|reflexivity].
-    apply add_factor_atomic_registered; [|assumption].
-    pose proof (keyed_aget Nat.eq_dec el_name _ _ _ (tk_el _ (T _ _ Ho)) GL) as En. unfold registered. rewrite <- En. assumption.
+  - apply on_tab_atomic. intros t0. apply add_edge_label_atomic.
+  - apply on_tab_atomic. intros t0. apply add_domain_atomic.
+  - apply on_tab_atomic. intros t0. apply add_factor_atomic.
+  - apply on_tab_atomic. intros t0. apply add_domain_atomic.
+  - apply on_tab_atomic. intros t0. apply new_finite_factor_atomic.
   - destruct (nth_error (objs s) h1), (nth_error (objs s) h2); reflexivity.
 Qed.
 
 Corollary step_atomic_observe : forall s o,
-    tabs_keyed s -> atomic_ok s o = true -> is_err (snd (step s o)) = true ->
-    observe (fst (step s o)) = observe s.
+    is_err (snd (step s o)) = true -> observe (fst (step s o)) = observe s.
 Proof. intros. unfold observe. f_equal. apply step_atomic; assumption. Qed.
+
+(** * plain objects carry no interpretation *)
+Definition plain_tab (b : bool) (t : tables) : Prop := b = false -> t_dom t = [] /\ t_fac t = [].
+Definition plain_obj (o : obj) : Prop := plain_tab (has_interp o) (tab_of o).
+Definition plain_os (os : list obj) : Prop := forall k o, nth_error os k = Some o -> plain_obj o.
+Definition plain_ok (s : state) : Prop := plain_os (objs s).
+
+Lemma pl_set_nth : forall os h o, plain_os os -> plain_obj o -> plain_os (set_nth os h o).
+Proof.
+  intros os h o T H k o' Hk. destruct (Nat.eq_dec k h) as [->|N].
+  - destruct (Nat.lt_ge_cases h (length os)) as [L|L].
+    + rewrite nth_error_set_nth_same in Hk by assumption. inversion Hk; subst. assumption.
+    + assert (X : nth_error (set_nth os h o) h = None).
+      { apply nth_error_None. rewrite length_set_nth. assumption. }
+      congruence.
+  - rewrite nth_error_set_nth_other in Hk by assumption. eapply T; eauto.
+Qed.
+
+Lemma pl_app : forall os news, plain_os os -> (forall o, In o news -> plain_obj o) -> plain_os (os ++ news).
+Proof.
+  intros os news T H k o Hk. destruct (Nat.lt_ge_cases k (length os)) as [L|L].
+  - rewrite nth_error_app1 in Hk by assumption. eapply T; eauto.
+  - rewrite nth_error_app2 in Hk by assumption. apply H. eapply nth_error_In; eauto.
+Qed.
+
+(** a graph method that keeps the class flag and the interpretation *)
+Definition keeps_interp (g g' : graph) : Prop :=
+  g_fg g' = g_fg g /\ t_dom (g_tab g') = t_dom (g_tab g) /\ t_fac (g_tab g') = t_fac (g_tab g).
+
+Lemma grows_keeps : forall g g', grows g g' -> keeps_interp g g'.
+Proof. intros g g' G. split; [apply G | split; apply G]. Qed.
+
+Lemma add_edge_label_interp : forall t l, t_dom (fst (t_add_edge_label t l)) = t_dom t /\ t_fac (fst (t_add_edge_label t l)) = t_fac t.
+Proof.
+  intros. unfold t_add_edge_label. destruct (aget Nat.eq_dec (t_el t) (el_name l)) as [l'|]; [|cbn; auto].
+  destruct (elabel_eq_dec l' l); cbn; auto.
+Qed.
+
+Lemma g_add_edge_keeps_interp : forall g e, keeps_interp g (fst (g_add_edge g e)).
+Proof.
+  intros g e. destruct (g_add_edge_cases g e) as [E|(add & t' & _ & E & _ & L)]; rewrite E; cbn [fst]; [repeat split|].
+  pose proof (add_all_grows add g) as GR. pose proof (add_edge_label_interp (g_tab (g_add_all g add)) (e_label e)) as [D F].
+  rewrite L in D, F. cbn in D, F. split; [apply GR|]. cbn. split; [rewrite D; apply GR | rewrite F; apply GR].
+Qed.
+
+Lemma on_graph_pl : forall s c h f,
+    plain_ok s -> (forall g, keeps_interp g (fst (f g))) -> plain_ok (fst (on_graph s c h f)).
+Proof.
+  intros s c h f T H. unfold on_graph. destruct (get_graph (objs s) h) as [g|] eqn:G; [|exact T].
+  unfold get_graph in G. destruct (nth_error (objs s) h) as [[g0|]|] eqn:N; try discriminate. inversion G; subst.
+  pose proof (H g) as (A & B & C). pose proof (T _ _ N) as P. destruct (f g) as [g' r]. cbn in *.
+  unfold plain_ok. cbn. apply pl_set_nth; [assumption|]. unfold plain_obj, plain_tab in *. cbn in *.
+  rewrite A, B, C. assumption.
+Qed.
+
+Lemma on_hrg_pl : forall s h f,
+    plain_ok s ->
+    (forall x, h_fgg (fst (f x)) = h_fgg x /\ t_dom (h_tab (fst (f x))) = t_dom (h_tab x) /\ t_fac (h_tab (fst (f x))) = t_fac (h_tab x)) ->
+    plain_ok (fst (on_hrg s h f)).
+Proof.
+  intros s h f T H. unfold on_hrg. destruct (get_hrg (objs s) h) as [x|] eqn:G; [|exact T].
+  unfold get_hrg in G. destruct (nth_error (objs s) h) as [[|x0]|] eqn:N; try discriminate. inversion G; subst.
+  pose proof (H x) as (A & B & C). pose proof (T _ _ N) as P. destruct (f x) as [x' r]. cbn in *.
+  unfold plain_ok. cbn. apply pl_set_nth; [assumption|]. unfold plain_obj, plain_tab in *. cbn in *.
+  rewrite A, B, C. assumption.
+Qed.
+
+Lemma has_interp_with_tab : forall o t, has_interp (with_tab o t) = has_interp o.
+Proof. destruct o; reflexivity. Qed.
+Lemma tab_of_with_tab : forall o t, tab_of (with_tab o t) = t.
+Proof. destruct o; reflexivity. Qed.
+
+(** label methods keep the interpretation; interpretation methods only run on objects that have one *)
+Lemma on_tab_pl : forall s b h f,
+    plain_ok s ->
+    (b = true \/ forall t, t_dom (fst (f t)) = t_dom t /\ t_fac (fst (f t)) = t_fac t) ->
+    plain_ok (fst (on_tab s b h f)).
+Proof.
+  intros s b h f T H. unfold on_tab. destruct (nth_error (objs s) h) as [o|] eqn:N; [|exact T].
+  destruct (b && negb (has_interp o)) eqn:B; [exact T|].
+  pose proof (T _ _ N) as P. destruct (f (tab_of o)) as [t r] eqn:E. cbn.
+  unfold plain_ok. cbn. apply pl_set_nth; [assumption|].
+  unfold plain_obj, plain_tab in *. rewrite has_interp_with_tab, tab_of_with_tab. intros HI.
+  destruct H as [->|H].
+  - cbn in B. rewrite HI in B. discriminate.
+  - destruct (H (tab_of o)) as [D F]. rewrite E in D, F. cbn in D, F. rewrite D, F. apply P. assumption.
+Qed.
+
+Lemma fold_nl_interp : forall (l : list (ident * node)) t,
+    let t' := fold_left (fun t kn => t_add_node_label t (n_label (snd kn))) l t in
+    t_dom t' = t_dom t /\ t_fac t' = t_fac t.
+Proof. induction l as [|x l IH]; intros t; cbn; [auto|]. destruct (IH (t_add_node_label t (n_label (snd x)))) as [A B]. auto. Qed.
+
+Lemma fold_el_interp : forall (l : list (ident * edge)) t,
+    let t' := fst (fold_err (fun t ke => t_add_edge_label t (e_label (snd ke))) l t) in
+    t_dom t' = t_dom t /\ t_fac t' = t_fac t.
+Proof.
+  induction l as [|x l IH]; intros t; cbn; [auto|].
+  pose proof (add_edge_label_interp t (e_label (snd x))) as [A B].
+  destruct (t_add_edge_label t (e_label (snd x))) as [t1 [| |k]]; cbn in *; auto;
+    destruct (IH t1) as [C D]; cbn in *; split; congruence.
+Qed.
+
+Lemma h_add_rule_interp : forall x r g,
+    h_fgg (fst (h_add_rule x r g)) = h_fgg x /\ t_dom (h_tab (fst (h_add_rule x r g))) = t_dom (h_tab x) /\
+    t_fac (h_tab (fst (h_add_rule x r g))) = t_fac (h_tab x).
+Proof.
+  intros x r g. unfold h_add_rule. destruct (labels_clash _ _); [auto|].
+  pose proof (add_edge_label_interp (h_tab x) (r_lhs r)) as [A B].
+  destruct (t_add_edge_label (h_tab x) (r_lhs r)) as [t1 r1]. cbn in A, B.
+  pose proof (fold_nl_interp (g_nodes g) t1) as [A2 B2]. cbn zeta in A2, B2.
+  pose proof (fold_el_interp (g_edges g) (fold_left (fun t kn => t_add_node_label t (n_label (snd kn))) (g_nodes g) t1)) as [A3 B3].
+  cbn zeta in A3, B3.
+  destruct (fold_err _ (g_edges g) _) as [t3 r3]. cbn in A3, B3.
+  destruct r1 as [| |k1]; destruct r3 as [| |k3]; cbn; (split; [reflexivity | split; congruence]).
+Qed.
+
+Lemma h_set_start_interp : forall x sp,
+    h_fgg (fst (h_set_start x sp)) = h_fgg x /\ t_dom (h_tab (fst (h_set_start x sp))) = t_dom (h_tab x) /\
+    t_fac (h_tab (fst (h_set_start x sp))) = t_fac (h_tab x).
+Proof.
+  intros x sp. unfold h_set_start. destruct sp as [|l|n]; [auto| |].
+  all: match goal with |- context [if el_term ?l then _ else _] => set (lab := l) end.
+  all: destruct (el_term lab); [auto|].
+  all: pose proof (add_edge_label_interp (h_tab x) lab) as [A B].
+  all: destruct (t_add_edge_label (h_tab x) lab) as [t1 [| |k]]; cbn in *; auto.
+Qed.
+
+Lemma fold_err_pres : forall {A B} (P : A -> Prop) (f : A -> B -> A * result),
+    (forall a x, P a -> P (fst (f a x))) -> forall l a, P a -> P (fst (fold_err f l a)).
+Proof.
+  intros A B P f H. induction l as [|x l IH]; intros a Pa; cbn; [assumption|].
+  pose proof (H a x Pa) as P1. destruct (f a x) as [a' [| |k]]; cbn in *; auto.
+Qed.
+
+Lemma g_copy_plain : forall g c, g_copy g = inl c -> plain_obj (OG c).
+Proof.
+  intros g c E. unfold g_copy in E. destruct (g_fg g) eqn:FG.
+  - (* a FactorGraph copy is a FactorGraph *)
+    assert (F : g_fg c = true).
+    { destruct (fold_err g_add_node (map snd (g_nodes g)) (empty_graph true)) as [c1 r1] eqn:E1.
+      destruct (nodes_phase _ _ _ _ E1) as [G1 _].
+      pose proof (fold_err_pres (fun x => g_fg x = true) g_add_edge) as FP.
+      assert (E' : match fold_err g_add_edge (map snd (g_edges g)) c1 with
+                   | (_, RErr k) => inr k
+                   | (c0, _) => inl (gset_tab (gset_ext c0 (g_ext g))
+                                              (mkT (t_nl (g_tab g)) (t_el (g_tab g)) (t_dom (g_tab g)) (t_fac (g_tab g))))
+                   end = inl c) by (destruct r1; [exact E | exact E | discriminate]).
+      specialize (FP (fun a x H => eq_trans (proj1 (g_add_edge_keeps_interp a x)) H) (map snd (g_edges g)) c1).
+      assert (C1 : g_fg c1 = true) by (rewrite (gr_fg _ _ G1); reflexivity). specialize (FP C1).
+      destruct (fold_err g_add_edge (map snd (g_edges g)) c1) as [c2 r2]. cbn in FP.
+      destruct r2; inversion E'; subst; cbn; assumption. }
+    unfold plain_obj, plain_tab. cbn. rewrite F. discriminate.
+  - inversion E; subst. unfold plain_obj, plain_tab. cbn. auto.
+Qed.
+
+Lemma h_new_plain : forall b sp h r, h_new b sp = (Some h, r) -> plain_obj (OH h).
+Proof.
+  intros b sp h r E. unfold h_new in E.
+  pose proof (h_set_start_interp (mkH b [] (EL 0 [] false) empty_tab) sp) as (A & B & C).
+  destruct (h_set_start (mkH b [] (EL 0 [] false) empty_tab) sp) as [h' [| |k]]; inversion E; subst.
+  cbn in *. unfold plain_obj, plain_tab. cbn. rewrite B, C. auto.
+Qed.
+
+Lemma mk_edge_keeps_interp : forall l ns i g, keeps_interp g (fst (mk_edge_and_add l ns i g)).
+Proof.
+  intros l ns i g. unfold mk_edge_and_add. destruct i as [i|]; [|repeat split].
+  destruct (lnat_eq_dec (el_ty l) (map n_label ns)); [apply g_add_edge_keeps_interp | repeat split].
+Qed.
+
+Theorem step_plain_ok : forall s o, plain_ok s -> plain_ok (fst (step s o)).
+Proof.
+  intros s o T. destruct o; cbn [step].
+  - apply pl_app; [assumption|]. intros o [<-|[]]. unfold plain_obj, plain_tab. cbn. auto.
+  - apply pl_app; [assumption|]. intros o [<-|[]]. unfold plain_obj, plain_tab. cbn. auto.
+  - destruct (h_new false s0) as [[x|] r] eqn:E; [|exact T].
+    apply pl_app; [assumption|]. intros o [<-|[]]. eapply h_new_plain; eauto.
+  - destruct (h_new true s0) as [[x|] r] eqn:E; [|exact T].
+    apply pl_app; [assumption|]. intros o [<-|[]]. eapply h_new_plain; eauto.
+  - destruct (resolve (ctr s) [n]) as [ns c]. destruct ns as [|x [|y ns]]; try exact T.
+    apply on_graph_pl; [assumption|]. intros g. apply grows_keeps, add_node_grows.
+  - destruct (resolve_id (ctr s) i) as [[i'|] c]; [|exact T].
+    apply on_graph_pl; [assumption|]. intros g. apply grows_keeps, add_node_grows.
+  - apply on_graph_pl; [assumption|]. intros g. unfold g_remove_node.
+    destruct (aget ident_eq_dec (g_nodes g) (n_id n)); [|repeat split].
+    destruct (node_eq_dec n0 n); [|repeat split].
+    destruct (existsb _ _); [repeat split|]. destruct (inb _ _ _); repeat split.
+  - destruct (resolve (ctr s) ns) as [ns' c]. destruct (resolve_id c i) as [i' c'].
+    apply on_graph_pl; [assumption|]. intros g. apply mk_edge_keeps_interp.
+  - destruct (resolve (ctr s) ns) as [ns' c]. destruct (resolve_id c i) as [i' c'].
+    destruct ((t && nt) || (negb t && negb nt)); [exact T|].
+    apply on_graph_pl; [assumption|]. intros g. apply mk_edge_keeps_interp.
+  - apply on_graph_pl; [assumption|]. intros g. unfold g_remove_edge. destruct (negb _); repeat split.
+  - destruct (resolve (ctr s) ns) as [ns' c].
+    apply on_graph_pl; [assumption|]. intros g. unfold g_set_ext.
+    destruct (check_new (g_nodes g) [] ns') as [add|]; [|repeat split].
+    cbn. apply (grows_keeps _ _ (add_all_grows add g)).
+  - destruct (nth_error (objs s) h) as [[g|x]|] eqn:N; [| |exact T].
+    + destruct (g_copy g) as [c|] eqn:C; [|exact T].
+      apply pl_app; [assumption|]. intros o [<-|[]]. eapply g_copy_plain; eauto.
+    + destruct (h_copy (objs s) x) as [[c news]|] eqn:C; [|exact T].
+      unfold h_copy in C.
+      destruct (h_new (h_fgg x) (SLabel (h_start x))) as [[c0|] r0]; [|destruct r0; discriminate].
+      destruct (copy_groups (objs s) (S (length (objs s))) (h_rules x)) as [[gs news0]|] eqn:E1; [|discriminate].
+      inversion C; subst. destruct (copy_groups_spec _ _ _ _ _ E1) as (_ & _ & D).
+      apply pl_app; [assumption|]. intros o [<-|Ho].
+      * unfold plain_obj, plain_tab. cbn. intros ->. auto.
+      * destruct (D _ Ho) as (k & rs & _ & (r & g & c1 & -> & _ & _ & Hc)). eapply g_copy_plain; eauto.
+  - destruct (get_graph (objs s) g); exact T.
+  - destruct (get_graph (objs s) g) as [g0|]; [|exact T]. destruct (rule_ok l g0); [|exact T].
+    apply (on_hrg_pl s h (fun x => h_add_rule x (Rule l g) g0)); [assumption|]. intros; apply h_add_rule_interp.
+  - destruct (get_graph (objs s) g) as [g0|]; [|exact T]. destruct (rule_ok _ g0); [|exact T].
+    apply (on_hrg_pl s h (fun x => h_add_rule x (Rule (EL name (g_type g0) false) g) g0)); [assumption|].
+    intros; apply h_add_rule_interp.
+  - apply on_hrg_pl; [assumption|]. intros; apply h_set_start_interp.
+  - apply on_tab_pl; [assumption|]. right. intros t0. cbn. auto.
+  - apply on_tab_pl; [assumption|]. right. intros t0. apply add_edge_label_interp.
+  - apply on_tab_pl; [assumption|]. left. reflexivity.
+  - apply on_tab_pl; [assumption|]. left. reflexivity.
+  - apply on_tab_pl; [assumption|]. left. reflexivity.
+  - apply on_tab_pl; [assumption|]. left. reflexivity.
+  - destruct (nth_error (objs s) h1), (nth_error (objs s) h2); exact T.
+Qed.
+
+Theorem reachable_plain_ok : forall ops, plain_ok (run init ops).
+Proof.
+  assert (H : forall ops s, plain_ok s -> plain_ok (run s ops)).
+  { induction ops as [|o ops IH]; intros s T; [exact T|]. unfold run in *. cbn. apply IH. apply step_plain_ok. assumption. }
+  intros ops. apply H. intros k o Hk. destruct k; discriminate.
+Qed.
